@@ -8,6 +8,12 @@ CLAIMED = {
  "C01": dict(ref="7/C01", technique="Lean 4 theorems (spec of every operator by label, arbitrary dims/orders/values) + translator-regenerated einsum subscripts + differential correspondence (array-ops/arith, exhaustive over ordered subset pairs)",
              text="Machine-checked proof: for every operator the result's dimension list and its entry at every label combination are characterised by theorems over arbitrary dimension lists, storage orders, lengths (incl. 1 and 0-d) and ring/field values; the model's einsum subscripts are regenerated from the source on every run and the hand-written model is compared with the implementation on all ordered-subset pairs of a 3-4 letter universe x 22 operator forms.",
              note="numpy einsum/elementwise semantics modelled (Flodym/Np/ND.lean), validated by correspondence; rounding not modelled; x**y is an uninterpreted elementwise function"),
+ "C07": dict(ref="7/C07", technique="Lean 4 theorems (marginal sums, grand total via Fubini/permutation of nested sums, cast/tile mechanism, shares) + translator-regenerated subscripts + differential correspondence (array-ops/reduce, exhaustive over ordered subsets)",
+             text="Machine-checked proof: sum_to/sum_over return the marginal sums by label in the requested order for every way of naming dimensions; the grand total is preserved (permutation invariance of nested sums, by induction on List.Perm); cumsum accumulates along the letter's axis; cast_to replicates entries (einsum reorder, newaxis, tile unfolded) and summing back multiplies by the number of added label combinations; shares multiply back and add to one. Unbounded in dimensions, orders, lengths; values in a commutative monoid / semiring / field.",
+             note="numpy einsum, newaxis indexing, tile, cumsum modelled and validated by correspondence; rounding not modelled; division theorems guarded by total != 0"),
+ "C14": dict(ref="7/C14", technique="Lean 4 theorems on the ordered-list model (set operators, lookups, uniqueness invariant by induction over mutation histories) + differential correspondence (all pairs of ordered sub-lists, queries, random histories with full-store dumps)",
+             text="Machine-checked proof: every DimensionSet operator is characterised by the ordered list it returns; lookups agree with the order; distinct letters are an invariant of every constructor/mutator (clashes refused), lifted to arbitrary mutation sequences by induction. The transcription of dimensions.py is compared with the implementation on all pairs of ordered sub-lists of a 4-5 letter alphabet and on random in-place/out-of-place histories with a dump of every live set and array after each step (aliasing shows there).",
+             note="pydantic validator behaviour (re-validation of a passed DimensionSet, model_copy being shallow) and Python list semantics are modelled; object identity is covered by correspondence, not by theorems"),
 }
 
 def main():
